@@ -388,6 +388,95 @@ def c09_trace(tid, name, build, item, r, nreq):
     return dict(id=tid, cfg=dict(name=name), ev=ev)
 
 
+
+# ---------------------------------------------------------------- real DataLoader workers
+class _StateProbeDS:
+    """wraps a dataset: item i = (worker id, value digest of dataset[i], generator-state table of the worker's copy)"""
+
+    def __init__(self, ds, item):
+        self.ds, self.item = ds, item
+
+    def __len__(self):
+        return len(self.ds) if self.item != "mode" else 3
+
+    def __getitem__(self, i):
+        import torch
+        info = torch.utils.data.get_worker_info()
+        before = {p: gw.gen_state(g) for p, g in gw.walk_generators(self.ds).items()}
+        val = self.ds[i] if self.item == "mode" else get_item(self.ds, self.item, i)
+        after = {p: gw.gen_state(g) for p, g in gw.walk_generators(self.ds).items()}
+        return (info.id if info is not None else -1, gw.canon(val), before, after)
+
+    def worker_init_fn(self, wid):
+        import torch
+        torch.set_num_threads(1)
+        self.ds.worker_init_fn(wid, batch_size=1, dataset_len=len(self), world_size=1, drop_last=True, updates=100000)
+
+
+def loader_run(ds, item, num_workers, base_seed):
+    """one pass of a real DataLoader; returns [(index, worker, digest, before, after)] in index order"""
+    import torch
+    probe = _StateProbeDS(ds, item)
+    g = torch.Generator()
+    g.manual_seed(base_seed)
+    dl = torch.utils.data.DataLoader(probe, batch_size=1, shuffle=False, num_workers=num_workers, collate_fn=lambda b: b[0],
+                                     worker_init_fn=(probe.worker_init_fn if num_workers > 0 else None), generator=g)
+    return [(i,) + tuple(x) for i, x in enumerate(dl)]
+
+
+def c08_loader_trace(tid, name, build, item, probe, r):
+    """the same seeded stack read through real DataLoaders with 0, 2 and 3 workers: value per index must not depend on it"""
+    ev = []
+    cls = gw.ClassIds()
+    seed = r.randint(1, 10 ** 5)
+    try:
+        for nw in (0, 2, 3, 2):
+            gw.perturb_globals(r.randint(0, 10 ** 6))
+            ds = build(seed)
+            for (i, wid, dig, _b, _a) in loader_run(ds, item, nw, r.randint(0, 10 ** 6)):
+                ev.append(dict(a="req", seed=seed, i=i, out=cls(dig), probe=bool(probe), exc=""))
+    except Exception as e:
+        ev.append(dict(a="req", seed=0, i=0, out=0, probe=False, exc=f"loader:{type(e).__name__}:{str(e)[:160]}"))
+    return dict(id=tid, cfg=dict(name=name + " via DataLoader(0,2,3 workers)"), ev=ev)
+
+
+def c09_loader_trace(tid, name, build, item, r):
+    """real workers: every member generator that a worker draws from must start in a state that differs between the
+    two workers of one loader, and must be the same again when the loader is re-created with the same base seed"""
+    ev = []
+    cls = gw.ClassIds()
+    try:
+        gw.perturb_globals(r.randint(0, 10 ** 6))
+        ds = build()
+        base = r.randint(0, 10 ** 6)
+        runs = [loader_run(ds, item, 2, base), loader_run(ds, item, 2, base)]
+        first = []  # per run: worker -> (state table at the worker's first item, drawn paths over all its items)
+        for run_ in runs:
+            tabs = {}
+            for (i, wid, dig, before, after) in run_:
+                t = tabs.setdefault(wid, dict(first=before, drawn=set()))
+                t["drawn"] |= {p for p in before if after.get(p) != before[p]}
+            first.append(tabs)
+        w = sorted(first[0])
+        if len(w) >= 2:
+            a, b = first[0][w[0]], first[0][w[1]]
+            for p in sorted(a["first"]):
+                if p in b["first"]:
+                    ev.append(dict(a="node", path=p, sameseed=False, drawn=bool(p in a["drawn"] or p in b["drawn"]),
+                                   sa=cls(a["first"][p]), sb=cls(b["first"][p]), exc=""))
+        for wid in w:
+            if wid in first[1]:
+                for p in sorted(first[0][wid]["first"]):
+                    if p in first[1][wid]["first"]:
+                        ev.append(dict(a="node", path=p, sameseed=True, drawn=False, sa=cls(first[0][wid]["first"][p]),
+                                       sb=cls(first[1][wid]["first"][p]), exc=""))
+        ev.append(dict(a="node", path="<outputs>", sameseed=True, drawn=False,
+                       sa=cls(gw.canon([x[3] for x in runs[0]])), sb=cls(gw.canon([x[3] for x in runs[1]])), exc=""))
+    except Exception as e:
+        ev.append(dict(a="node", path="", sameseed=False, drawn=False, sa=0, sb=0, exc=f"loader:{type(e).__name__}:{str(e)[:160]}"))
+    return dict(id=tid, cfg=dict(name=name + " via DataLoader(2 workers)"), ev=ev)
+
+
 # ---------------------------------------------------------------- run
 def model_check(v, quick):
     res = tlc.run_tlc("RngFlowMC", "RngFlowMC_ok.cfg" if quick else "RngFlowMC_thorough.cfg", name=v.prop + "mc", workers=8,
@@ -429,6 +518,11 @@ def run(prop, tier, seed):
         stacks = c08_stacks(quick, r)
         for tid, (name, build, item, probe) in enumerate(stacks, start=1):
             traces.append(c08_trace(tid, name, build, item, probe, r, 14 if quick else 40))
+        # a few stacks through real DataLoaders (all probes + a sample of the others)
+        pick = [s_ for s_ in stacks if s_[3]][: (2 if quick else 6)] + r.sample([s_ for s_ in stacks if not s_[3]],
+                                                                                 3 if quick else 15)
+        for (name, build, item, probe) in pick:
+            traces.append(c08_loader_trace(len(traces) + 1, name, build, item, probe, r))
         rule = ("one case = one seeded wrapper stack: two seeds, three copies (the original and two initialised simulated "
                 "workers), random request orders with repetitions and global-state perturbations; non-trivial = every "
                 "stack (each has a stochastic member); distinct by stack name")
@@ -437,6 +531,8 @@ def run(prop, tier, seed):
         stacks = c09_stacks(quick, r)
         for tid, (name, build, item) in enumerate(stacks, start=1):
             traces.append(c09_trace(tid, name, build, item, r, 6 if quick else 12))
+        for (name, build, item) in r.sample([s_ for s_ in stacks if s_[2] in ("x", "mode", "xsemseg")], 4 if quick else 20):
+            traces.append(c09_loader_trace(len(traces) + 1, name, build, item, r))
         rule = ("one case = one dataset stack: worker initialisation in two deep copies with different and with equal "
                 "worker seeds, then K requests per copy; one event per member generator (object-graph path); "
                 "non-trivial = every stack; distinct by stack name")
